@@ -186,6 +186,14 @@ class Integ:
         await self.settle()
 
     def _vrec(self, *args, **kwargs):
+        # snapshot mutable arguments at record time
+        import copy
+
+        try:
+            args = copy.deepcopy(args)
+            kwargs = copy.deepcopy(kwargs)
+        except Exception:  # noqa: BLE001 - uncopyable objects (tasks, contexts) are kept by reference
+            pass
         self.records.append((round(self.vt(), 6), args, kwargs))
 
     async def settle(self, rounds=3):
